@@ -63,6 +63,9 @@ class Engine:
         for a in self.algs:
             if a['t'] not in self.tasks:
                 self.tasks.append(a['t'])
+        for t in desc.get('foreign_events', {}):
+            if t not in self.tasks:
+                self.tasks.append(t)
 
     # ------------------------------------------------------------ reference
     def tag(self, a):
@@ -151,14 +154,28 @@ class Engine:
         for a in self.algs:
             if a['t'] == task and a['k'] not in kinds:
                 kinds.append(a['k'])
-        if any(a['ev'] for a in self.algs if a['t'] == task):
+        if any(a['ev'] for a in self.algs if a['t'] == task) or \
+                self.desc.get('foreign_events', {}).get(task):
             kinds.append('events')
         if 'offer' in self.desc and task in self.desc['offer']:
             kinds = list(self.desc['offer'][task])
         return kinds
 
     # ------------------------------------------------------------ code gen
-    def _moment(self, e, fac, impl):
+    def _moment(self, e, fac, impl, brk=None):
+        bw = (brk or {}).get('what')
+        if bw == 'moment-two':
+            return (f"dawgie.EVENT(dawgie.ALG_REF({fac}, {impl}), "
+                    "dawgie.MOMENT(True, None, None, 1, datetime.time(1, 2, 3)))")
+        if bw == 'moment-dom-str':
+            return (f"dawgie.EVENT(dawgie.ALG_REF({fac}, {impl}), "
+                    "dawgie.MOMENT(None, None, '3', None, datetime.time(1, 2, 3)))")
+        if bw == 'moment-no-time':
+            return (f"dawgie.EVENT(dawgie.ALG_REF({fac}, {impl}), "
+                    "dawgie.MOMENT(None, None, None, 2, None))")
+        if bw == 'moment-day-str':
+            return (f"dawgie.EVENT(dawgie.ALG_REF({fac}, {impl}), "
+                    "dawgie.MOMENT(None, '2024-01-01', None, None, datetime.time(1, 2, 3)))")
         args = []
         if e.get('boot'):
             args.append('boot=True')
@@ -173,6 +190,18 @@ class Engine:
         return f"dawgie.schedule({fac}, {impl}, {', '.join(args)})"
 
     def source(self, task):
+        brk = self.desc.get('break') or {}
+        bw = brk.get('what') if brk.get('t', task) == task else None
+
+        def hit(what, n=None, f=None):
+            if bw != what:
+                return False
+            if n is not None and brk.get('n') != n:
+                return False
+            if f is not None and brk.get('f') != f:
+                return False
+            return True
+
         L = []
         w = L.append
         w('import datetime')
@@ -192,6 +221,8 @@ class Engine:
                     w(f'class V_{an}_{sn}_{vn}(dawgie.Value):')
                     w('    def __init__(self, content=None):')
                     w('        self.content = content')
+                    if hit('unpicklable', a['n']):
+                        w('        self.hook = lambda: 0')
                     w('        self._version_ = dawgie.VERSION(%d, %d, %d)' % tuple(v['ver']))
                     w('    def features(self):')
                     w('        return []')
@@ -201,42 +232,64 @@ class Engine:
                     w('    def __repr__(self):')
                     w("        return 'V(%r)' % (self.content,)")
                     w('')
-                w(f'class SV_{an}_{sn}(dawgie.StateVector):')
-                w('    def __init__(self):')
-                w('        dawgie.StateVector.__init__(self)')
+                if hit('sv-base', a['n']):
+                    w(f'class SV_{an}_{sn}(dict):')
+                    w('    def __init__(self):')
+                    w('        dict.__init__(self)')
+                else:
+                    w(f'class SV_{an}_{sn}(dawgie.StateVector):')
+                    w('    def __init__(self):')
+                    w('        dawgie.StateVector.__init__(self)')
                 w('        self._version_ = dawgie.VERSION(%d, %d, %d)' % tuple(s['ver']))
-                for v in s['vals']:
-                    w(f"        self[{v['n']!r}] = V_{an}_{sn}_{ident(v['n'])}()")
-                w('    def name(self):')
-                w(f"        return {s['n']!r}")
+                if not hit('sv-empty', a['n']):
+                    for v in s['vals']:
+                        key = v['n'] + ('.q' if hit('dot-val', a['n']) else '')
+                        val = 'object()' if hit('val-base', a['n']) else f"V_{an}_{sn}_{ident(v['n'])}()"
+                        w(f"        self[{key!r}] = {val}")
+                if not hit('sv-no-name', a['n']):
+                    w('    def name(self):')
+                    w(f"        return {(s['n'] + ('.q' if hit('dot-sv', a['n']) else ''))!r}")
                 w('    def view(self, caller, visitor):')
                 w('        return')
                 w('')
             base = BASE[a['k']]
-            w(f'class A_{an}(dawgie.{base}):')
-            if self.style == 'auto' and a['ev']:
-                evs = ', '.join(
-                    self._moment(e, 'None', 'None') for e in a['ev'])
-                w(f'    DAWGIE_SCHEDULE = [{evs}]')
-            w('    def __init__(self):')
-            w(f'        dawgie.{base}.__init__(self)')
+            if hit('alg-base', a['n']):
+                w(f'class A_{an}:')
+                w('    def __init__(self):')
+            else:
+                w(f'class A_{an}(dawgie.{base}):')
+                if self.style == 'auto' and a['ev']:
+                    evs = ', '.join(
+                        self._moment(e, 'None', 'None', brk if hit(brk.get('what'), a['n']) else None)
+                        for e in a['ev'])
+                    w(f'    DAWGIE_SCHEDULE = [{evs}]')
+                w('    def __init__(self):')
+                w(f'        dawgie.{base}.__init__(self)')
             w('        self._version_ = dawgie.VERSION(%d, %d, %d)' % tuple(a['ver']))
             svl = ', '.join(f"SV_{an}_{ident(s['n'])}()" for s in a['svs'])
+            if hit('no-sv', a['n']):
+                svl = ''
             w(f'        self._svs = [{svl}]')
             w('        self._in = None')
             w('        self._fb = None')
-            w('    def name(self):')
-            w(f"        return {a['n']!r}")
-            w(f'    def {DEPM[a["k"]]}(self):')
-            w('        if self._in is None:')
-            w(f"            self._in = rt.build_refs(PKG, {a['in']!r}, self)")
-            w('        return self._in')
+            if not hit('no-name', a['n']):
+                w('    def name(self):')
+                w(f"        return {(a['n'] + ('.q' if hit('dot-alg', a['n']) else ''))!r}")
+            if not hit('no-deps', a['n']):
+                w(f'    def {DEPM[a["k"]]}(self):')
+                w('        if self._in is None:')
+                refbreak = bw if (bw or '').startswith('ref-') and brk.get('n') == a['n'] else None
+                w(f"            self._in = rt.break_refs(rt.build_refs(PKG, {a['in']!r}, self), {refbreak!r})")
+                w('        return self._in')
             w('    def feedback(self):')
             w('        if self._fb is None:')
             w(f"            self._fb = rt.build_refs(PKG, {a['fb']!r}, self)")
             w('        return self._fb')
             w('    def state_vectors(self):')
             w('        return self._svs')
+            if hit('alg-base', a['n']):
+                w('    def sv_as_dict(self):')
+                w('        return {sv.name(): sv for sv in self._svs}')
             if a['k'] == 'task':
                 w('    def run(self, ds, ps):')
                 w(f"        rt.run(PKG, TASK, self, 'task', ds)")
@@ -254,21 +307,37 @@ class Engine:
                 if k not in offered:
                     continue
                 members = ', '.join(f"A_{ident(a['n'])}()" for a in mine if a['k'] == k)
-                w(f'class Bot_{k}(dawgie.{botbase[k]}):')
+                if hit('bot-base', f=k):
+                    w(f'class Bot_{k}:')
+                    w('    def __init__(self, *args):')
+                    w('        self.args = args')
+                    w('    def routines(self):')
+                    w(f'        return [{members}]')
+                else:
+                    w(f'class Bot_{k}(dawgie.{botbase[k]}):')
                 w('    def list(self):')
                 w(f'        return [{members}]')
                 w('')
-            if 'task' in offered:
-                w("def task(prefix, ps_hint=0, runid=-1, target='__none__'):")
-                w('    return Bot_task(prefix, ps_hint, runid, target)')
-                w('')
-            if 'analysis' in offered:
-                w('def analysis(prefix, ps_hint=0, runid=-1):')
-                w('    return Bot_analysis(prefix, ps_hint, runid)')
-                w('')
-            if 'regress' in offered:
-                w("def regress(prefix, ps_hint=0, target='__none__'):")
-                w('    return Bot_regress(prefix, ps_hint, target)')
+            sig = {
+                'task': ("prefix: str, ps_hint: int = 0, runid: int = -1, target: str = '__none__'",
+                         'prefix, ps_hint, runid, target'),
+                'analysis': ('prefix: str, ps_hint: int = 0, runid: int = -1',
+                             'prefix, ps_hint, runid'),
+                'regress': ("prefix: str, ps_hint: int = 0, target: str = '__none__'",
+                            'prefix, ps_hint, target'),
+            }
+            for k in ('task', 'analysis', 'regress'):
+                if k not in offered:
+                    continue
+                params, call = sig[k]
+                if hit('fac-arity', f=k):
+                    params += ', extra: int = 0'
+                if hit('fac-default', f=k):
+                    params = params.replace('ps_hint: int = 0', 'ps_hint: int = 1')
+                if hit('fac-annot', f=k):
+                    params = params.replace('prefix: str', 'prefix')
+                w(f'def {k}({params}):')
+                w(f'    return Bot_{k}({call})')
                 w('')
             if 'events' in offered:
                 w('def events():')
@@ -276,7 +345,13 @@ class Engine:
                 for a in mine:
                     for e in a['ev']:
                         w('        ' + self._moment(
-                            e, KINDF[a['k']], f"A_{ident(a['n'])}()") + ',')
+                            e, KINDF[a['k']], f"A_{ident(a['n'])}()",
+                            brk if (bw or '').startswith('moment-') and brk.get('n') == a['n'] else None) + ',')
+                for spec in self.desc.get('foreign_events', {}).get(task, []):
+                    ft, fn, fk, e = spec
+                    w(f'        ' + self._moment(
+                        e, f"__import__('importlib').import_module('{self.pkg}.{ft}').{fk}",
+                        f"__import__('importlib').import_module('{self.pkg}.{ft}').A_{ident(fn)}()") + ',')
                 w('    ]')
                 w('')
         return '\n'.join(L) + '\n'
@@ -330,7 +405,90 @@ def chain_engines():
         A('tb', 'c', inputs=[('tz', 'z', None, None)])]
     out['regress-leaf'] = [A('ta', 'a'),
                            A('tr', 'r', 'regress', inputs=[('ta', 'a', None, None)])]
+    # names that are prefixes of one another, in one package
+    out['chain3-prefix'] = [A('ta', 'a'), A('ta', 'ab', inputs=[('ta', 'a', None, None)]),
+                            A('ta', 'abc', inputs=[('ta', 'ab', 's', 'x')])]
     out['diamond'] = [A('ta', 'a'), A('tb', 'b', inputs=[('ta', 'a', None, None)]),
                       A('tc', 'c', inputs=[('ta', 'a', None, None)]),
                       A('td', 'd', inputs=[('tb', 'b', None, None), ('tc', 'c', None, None)])]
     return {k: {'style': 'legacy', 'algs': v} for k, v in out.items()}
+
+
+def deep_engines():
+    '''deeper shapes than the exhaustive families reach (closure depth)'''
+    A = alg
+    names = 'abcdefg'
+    out = {}
+    for n in (5, 7):
+        algs = [A('t' + names[0], names[0])]
+        for i in range(1, n):
+            algs.append(A('t' + names[i], names[i],
+                          inputs=[('t' + names[i - 1], names[i - 1], None, None)]))
+        out[f'chain{n}'] = algs
+    # chain with an analysis in the middle and value-level references
+    out['chain5-mixed'] = [
+        A('ta', 'a'), A('tb', 'b', inputs=[('ta', 'a', 's', 'x')]),
+        A('tz', 'z', 'analysis', inputs=[('tb', 'b', 's', None)]),
+        A('td', 'd', inputs=[('tz', 'z', None, None)]),
+        A('tr', 'r', 'regress', inputs=[('td', 'd', 's', 'x')])]
+    # ladder: two chains with cross links
+    out['ladder'] = [
+        A('ta', 'a'), A('tb', 'b'),
+        A('tc', 'c', inputs=[('ta', 'a', None, None)]),
+        A('td', 'd', inputs=[('tb', 'b', None, None), ('tc', 'c', None, None)]),
+        A('te', 'e', inputs=[('td', 'd', None, None)]),
+        A('tf', 'f', inputs=[('te', 'e', None, None), ('ta', 'a', None, None)])]
+    return {k: {'style': 'legacy', 'algs': v} for k, v in out.items()}
+
+
+def dag_engines(n, kinds=('task', 'analysis', 'regress'), styles=('legacy', 'auto'),
+                share=(False, True, 'prefix'), feedback=(False, True), patterns=(0, 1, 2)):
+    '''every DAG on n ordered algorithms (edge i->j only for i<j) x kind
+    assignment x reference-granularity pattern x package sharing x one
+    optional feedback reference x factory style.  Each algorithm has two
+    state vectors (s: x,y ; sx: x) so that prefixes collide.'''
+    import itertools
+
+    pairs = [(i, j) for i in range(n) for j in range(i + 1, n)]
+    names = 'abcd'
+    for mask in range(1 << len(pairs)):
+        edges = [p for k, p in enumerate(pairs) if mask >> k & 1]
+        for ks in itertools.product(kinds, repeat=n):
+            for pat in patterns:
+                for sh in share:
+                    if sh is True and (n < 2 or ks[0] != ks[1]):
+                        continue
+                    if sh == 'prefix' and n < 2:
+                        continue
+                    for fb in feedback:
+                        if fb and not edges:
+                            continue
+                        for style in styles:
+                            if sh == 'prefix':
+                                # one package, names a, ab, abc, abcd
+                                task_of = ['ta'] * n
+                                names = ['abcd'[:i + 1] for i in range(n)]
+                            else:
+                                names = 'abcd'
+                                task_of = [('ta' if sh and i < 2 else f't{names[i]}') for i in range(n)]
+                            algs = []
+                            for j in range(n):
+                                ins = []
+                                for k, (i, jj) in enumerate(edges):
+                                    if jj != j:
+                                        continue
+                                    g = (k + pat) % 3
+                                    ref = [task_of[i], names[i], None, None]
+                                    if g >= 1:
+                                        ref[2] = 's'
+                                    if g == 2:
+                                        ref[3] = 'y'
+                                    ins.append(ref)
+                                fbs = []
+                                if fb and edges and j == edges[0][0]:
+                                    jj = edges[0][1]
+                                    fbs.append([task_of[jj], names[jj], 'sx', 'x'])
+                                algs.append(alg(task_of[j], names[j], ks[j], inputs=ins,
+                                                svs=[sv('s', ('x', 'y')), sv('sx', ('x',))],
+                                                fb=fbs))
+                            yield {'style': style, 'algs': algs}
